@@ -116,6 +116,8 @@ pub enum Mode {
     YieldInf,
     /// like Gate, but at every poll also invokes the stored waker of child `relay_target`
     Relay,
+    /// panics (unwinds through the crate) at its first poll, afterwards behaves like a released Gate
+    PanicOnce,
     /// a stream child (merge source) driven by a script
     Stream,
 }
@@ -300,6 +302,7 @@ pub struct World {
     pub z_bound: Vec<(usize, u32)>,
     pub z_created: u32,
     pub z_drops: u32,
+    pub z_completed: u32,
     // slot occupancy (RawWaker data pointer -> child)
     pub occupant: Vec<(usize, u32)>,
     // flags
@@ -360,6 +363,7 @@ impl World {
             z_bound: Vec::new(),
             z_created: 0,
             z_drops: 0,
+            z_completed: 0,
             occupant: Vec::new(),
             draining: false,
             dormant: false,
@@ -781,8 +785,12 @@ impl<O: Out> ScriptFut<O> {
     }
 }
 
+/// payload of the panic a `PanicOnce` child raises
+pub struct ChildPanic(pub u32);
+
 enum Act {
     Bad,
+    Panic,
     Complete,
     Pending,
     WakeSelfPending,
@@ -872,6 +880,9 @@ fn complete_child(w: &mut World, id: u32) {
     w.completed_in_call.push(id);
     w.clear_occupant(id);
     w.unlive(id);
+    if w.z_bound.iter().any(|(_, c)| *c == id) {
+        w.z_completed += 1;
+    }
     w.z_bound.retain(|(_, c)| *c != id);
 }
 
@@ -1005,6 +1016,13 @@ fn script_poll<O: Out>(id: u32, addr: usize, cx: &mut Context<'_>) -> Poll<O> {
                             Act::RelayPending(None)
                         }
                     }
+                    Mode::PanicOnce => {
+                        if c.polls <= 1 && !draining {
+                            Act::Panic
+                        } else {
+                            Act::Complete
+                        }
+                    }
                     Mode::Stream => Act::Bad,
                 };
                 if let Act::Bad = act {
@@ -1015,6 +1033,10 @@ fn script_poll<O: Out>(id: u32, addr: usize, cx: &mut Context<'_>) -> Poll<O> {
             let fail = w(|w| w.children[id as usize].fail);
             match act {
                 Act::Bad => Poll::Pending,
+                Act::Panic => {
+                    w(|w| w.logf(|| format!("    child {} polled -> panics", id)));
+                    std::panic::resume_unwind(Box::new(ChildPanic(id)))
+                }
                 Act::Pending => {
                     w(|w| w.logf(|| format!("    child {} polled -> Pending", id)));
                     Poll::Pending
